@@ -186,7 +186,7 @@ class I2CMasterMachine(LiteXModule):
             run.eq(self.start | self.stop | self.write | self.read),
             self.idle.eq(~run & fsm.ongoing("IDLE")),
             self.cg.ce.eq(~self.idle),
-            fsm.ce.eq(run | self.cg.clk2x),
+            fsm.ce.eq((run & fsm.ongoing("IDLE")) | self.cg.clk2x),
         ]
 
 # Registers:
